@@ -8,6 +8,17 @@ Core/SelProto.lean — selection operations of the line protocol (C02, C05 drive
   `extract <grids> <geometry,|-> <pointDim> <policy> <hits kind:i,j;-;…> <var=arr>…`
         → `ERR:missing[1,4]` | `labels=0,2 name=arr …` | `ERR`
 -/
+namespace Ems.GeomProtoChunk
+/-- chunk a flat list into rows of length `n` (`n = 0`: one empty row per element is meaningless → no rows) -/
+def chunk {β : Type} (n : Nat) (l : List β) : List (List β) :=
+  if n = 0 then [] else
+  let rec go (fuel : Nat) (l : List β) (acc : List (List β)) : List (List β) :=
+    match fuel with
+    | 0 => acc.reverse
+    | fuel + 1 => if l.isEmpty then acc.reverse else go fuel (l.drop n) (l.take n :: acc)
+  go (l.length + 1) l []
+end Ems.GeomProtoChunk
+
 namespace Ems.SelProto
 open Ems Ems.Proto Ems.ArrProto
 
@@ -66,6 +77,21 @@ def step? (ws : List String) : Option String :=
       | .error missing => s!"ERR:missing[{showNatList missing}]"
       | .ok labels out => s!"labels={showNatList labels} {showDSet out}"
       | .failed => "ERR"
+    | _, _, _ => "BAD")
+  | "extractfill" :: gs :: geom :: pdim :: hits :: vars =>
+    -- `extract_dataframe(..., missing_points='fill')`: every request keeps its row
+    some (match parseGrids? gs, parseHits? hits, parseVars? vars with
+    | some grids, some hs, some ds =>
+      match extractPoints grids ds (parseNames geom) hs pdim "drop" with
+      | .ok labels out =>
+        let filled : DSet (Option Int) := out.map fun v =>
+          let rest := v.2.dims.drop 1
+          let w := size (rest.map (·.2))
+          let rows := (GeomProtoChunk.chunk w v.2.data).map fun r => r.map some
+          let rows' := fillRows hs.length labels rows
+          (v.1, { dims := (pdim, hs.length) :: rest, data := (rows'.map fun r => r.map Option.join).flatten })
+        s!"labels={showNatList (List.range hs.length)} {showDSet filled}"
+      | _ => "ERR"
     | _, _, _ => "BAD")
   | _ => none
 
